@@ -1,12 +1,15 @@
 """C13 — IR-to-IR passes preserve program behaviour.
 
 Deciding method: Coq theorems (Props/C13.v) over Gallina models of the passes of
-ir/compact.go (Passes/Compact.v) and the reference semantics IR/Sem.v: a general
-renumbering lemma, CompactExpressions sound/idempotent/well-formed, CompactUnused
-(functions) sound.  Ties, on every run:
+ir/compact.go (Passes/Compact.v) and of ir/inline.go (Passes/Inline.v) and the reference
+semantics IR/Sem.v: a general renumbering lemma, CompactExpressions sound/idempotent/
+well-formed, a general lemma for dropping globals (simulation up to a renaming of memory
+cells), CompactUnused sound in full (functions and globals) and idempotent, CompactConstants
+idempotent, structural theorems about the inliner model.  Ties, on every run:
   C  model vs Go: for every program and every modelled pass, the extracted model applied
      to the dump BEFORE the Go pass must equal the dump AFTER it (all six passes of
-     ir/compact.go, on the lowered module and on the raw module the lowerer hands them);
+     ir/compact.go, on the lowered module and on the raw module the lowerer hands them;
+     InlineUserFunctions with the nil policy, lib/c13inline.py);
   V  differential execution (a search, not a proof): BEFORE and AFTER run under the
      extracted reference interpreter on inputs from a boundary pool, for every pass
      including InlineUserFunctions and the DXIL pipeline (sroa, mem2reg, dce);
@@ -21,6 +24,7 @@ import os
 import re
 
 import c13gen
+import c13inline
 import c13lib as L
 import c13progs
 import gen
@@ -31,7 +35,9 @@ import vcheck
 LEVEL = "proof"
 
 MODEL_FILES = ["Passes/Remap.v", "Passes/Compact.v", "Passes/Show.v", "Passes/RemapProofs.v", "Passes/RenameSound.v",
-               "Passes/CompactExprProofs.v", "Passes/CompactExprIdem.v", "Passes/CompactUnusedProofs.v", "Passes/Lenient.v"]
+               "Passes/CompactExprProofs.v", "Passes/CompactExprIdem.v", "Passes/CompactUnusedProofs.v", "Passes/Lenient.v",
+               "Passes/CellRenameOps.v", "Passes/CellRenameSound.v", "Passes/CompactUnusedIdem.v", "Passes/CompactConstIdem.v",
+               "Passes/CompactUnusedFull.v", "Passes/Inline.v", "Passes/InlineProofs.v", "Passes/InlineStale.v"]
 
 LOWERED = ["compact_unused", "compact_expressions", "compact_constants", "compact_types", "reorder_types",
            "dedup_emits", "unused_pipeline", "inline", "dxil_prepare", "stage:sroa", "stage:mem2reg", "stage:dce", "dxil"]
@@ -201,12 +207,13 @@ def run(ctx):
         "harness/cmd/passdrive (reflection dump of *ir.Module before/after each pass) and the add-only hooks "
         "dxil/verif_hooks_c13.go, wgsl/verif_hooks_c13.go, wgsl/internal/lower/verif_hooks_c13.go "
         "(the latter repeats the body of LowerWithWarnings up to the trailing passes)",
-        "modelled: ir/compact.go (all six passes); NOT modelled: ir/inline.go, dxil/internal/passes/* (differential search only)",
+        "extraction: tool inlinemodel = coq/Extract/InlineExtract.v + ocaml/common/driver.ml",
+        "modelled: ir/compact.go (all six passes), ir/inline.go with the nil policy (Passes/Inline.v); NOT modelled: the DXIL inlining policy, dxil/internal/passes/* (differential search only)",
     ]
     ctx.assumptions = [
         "theorems assume module_wf (operands precede users, statement operands in range): evaluated on every module, see coverage.hypotheses",
         "direction of the theorems: every terminating run of the source is reproduced (same result, same fuel); a dead expression that fails in the source is not evaluated after the pass",
-        "compact_unused: proved for removal of functions only (hypotheses module_wf, calls_in_range, no global removed: all evaluated on every module); removal of globals is covered by the model tie and differential execution",
+        "compact_unused: proved in full (functions and globals removed; hypotheses module_wf, calls_in_range, gexprs_closed = no EGlobalVariable in the module-scope expression arena: all evaluated on every module, see coverage.hypotheses); the results are those of the source up to the order-preserving renaming of memory cells inside pointer values (identical when the results hold no pointers); inputs without pointers",
         "Load/ArrayLength expressions left without Emit by InlineUserFunctions are read as 'evaluated when used' (Passes/Lenient.v) for differential execution",
     ]
     broken = None
@@ -362,15 +369,45 @@ def run(ctx):
             d = L.first_diff(a["show"], b["show"]) or ("type_use_order", a.get("type_use_order"), b.get("type_use_order"))
             tie_broken[(name, p)] = "first difference at %s: model %s, Go %s" % (d[0], json.dumps(d[1])[:200], json.dumps(d[2])[:200])
 
+    # ---- C tie for InlineUserFunctions (Passes/Inline.v, tool inlinemodel): model(BEFORE) == Go AFTER, Unsupported
+    #      exactly where Go returns an error; counts the call sites inside the "simple" class; Passes/InlineStale.v
+    dbg('inline tie')
+    exe_inl = ocamlbuild.build("inlinemodel")
+    inl_stats, inl_broken = c13inline.run_tie(ctx, exe_inl, usable, passes_of, vkey, W)
+    for name, why in inl_broken.items():
+        tie_broken[(name, "inline")] = why
+    stats["inline"]["model_equal"] = inl_stats["model_equal"]
+    stats["inline"]["model_out_of_fragment"] = inl_stats["model_out_of_fragment"]
+    ctx.cov["inline_model"] = {k: v for k, v in inl_stats.items() if k not in ("keys", "stale")}
+    ctx.cov["inline_model"]["stale_operand_modules"] = len(inl_stats["stale"])
+    stale_seen = set()
+    for name in sorted(inl_stats["stale"]):
+        for kind in inl_stats["stale"][name]:
+            if kind in stale_seen:
+                continue
+            stale_seen.add(kind)
+            ctx.violation("pass inline leaves the operands of an inlined %s statement in the callee's numbering (program %s): "
+                          "remapInlineStatementHandles does not rewrite them, so after inlining they name the caller's expressions "
+                          "of the same number instead of the copies of the callee's expressions (Passes/InlineStale.v: rstmt_keeps_other / "
+                          "rstmt_keeps_compare; the model reproduces Go's output, so the model tie stays quiet)" % (kind, name),
+                          files={"input.wgsl": dict(programs)[name],
+                                 "before.json": json.dumps((usable[name]["passes"].get("inline") or {}).get("before", usable[name]["before"])),
+                                 "after.json": json.dumps((usable[name]["passes"].get("inline") or {}).get("after"))},
+                          key="inline:unremapped:%s" % kind)
+    dbg('inline tie done')
+
     # ---- hypotheses of the theorems on the modules seen
     dbg('hypotheses: %d jobs' % len(hyp_jobs))
-    hyp = {"modules": 0, "module_wf": 0, "module_known": 0, "calls_in_range": 0, "calls_closed": 0, "no_global_removed": 0}
+    hyp = {"modules": 0, "module_wf": 0, "module_known": 0, "calls_in_range": 0, "calls_closed": 0, "no_global_removed": 0,
+           "gexprs_closed": 0, "compact_unused_sound_applies": 0}
     for name, h in zip(hyp_meta, L.run_model_parallel(exe, hyp_jobs, workers=W)):
         if not h.get("ok"):
             continue
         hyp["modules"] += 1
-        for k in ("module_wf", "module_known", "calls_in_range", "calls_closed", "no_global_removed"):
+        for k in ("module_wf", "module_known", "calls_in_range", "calls_closed", "no_global_removed", "gexprs_closed"):
             hyp[k] += 1 if h["hyp"].get(k) else 0
+        # all three hypotheses of c13_compact_unused_sound hold on this module
+        hyp["compact_unused_sound_applies"] += 1 if all(h["hyp"].get(k) for k in ("module_wf", "calls_in_range", "gexprs_closed")) else 0
         if not h["hyp"].get("calls_closed") and not L.out_of_model_fragment(usable[name]["before"]):
             tie_broken[(name, "compact_unused")] = tie_broken.get((name, "compact_unused")) or \
                 "side condition calls_closed of c13_compact_unused_sound_partial is false on this module"
@@ -577,19 +614,20 @@ def run(ctx):
         if (name, p) in diff_found:
             continue
         src = srcs[name]
-        ctx.violation("the Gallina model of %s (Passes/Compact.v) and the Go pass disagree on %s: %s\n"
+        ctx.violation("the Gallina model of %s (%s) and the Go pass disagree on %s: %s\n"
                       "(the theorems of Props/C13.v are about the model; no input on which BEFORE and AFTER behave differently was found)"
-                      % (p, name, why), files={"input.wgsl": src}, found_input=False,
+                      % (p, "Passes/Inline.v" if p == "inline" else "Passes/Compact.v", name, why), files={"input.wgsl": src}, found_input=False,
                       key=vkey("model", p, name, "/".join(x for x in why.split(": model")[0].split(" at ")[-1].split("/") if x and not x.isdigit())
                                if name in gen_by_name else None), broken="correspondence model/implementation for %s" % p)
     if broken:
         ctx.violation(broken, found_input=False, broken=broken, key="coq")
 
     ctx.cov["passes"] = stats
-    nmodel = sum(s["model_equal"] for s in stats.values())
+    nmodel = sum(s["model_equal"] for s in stats.values())       # includes the inline model tie (stats["inline"])
     nruns = sum(s["runs_compared"] for s in stats.values())
-    ctx.cov["evaluations"] = len(model_meta) + len(run_meta)
-    ctx.cov["distinct_nontrivial"] = sum(1 for (n, p) in model_meta if not usable[n]["passes"][p].get("same")) + nruns
+    ctx.cov["evaluations"] = len(model_meta) + len(run_meta) + inl_stats["compared"]
+    ctx.cov["distinct_nontrivial"] = sum(1 for (n, p) in model_meta if not usable[n]["passes"][p].get("same")) + nruns \
+        + inl_stats["changed_by_go"]
     ctx.cov["traces_validated_against_impl"] = nmodel
     ctx.cov["rule"] = ("evaluation = (program, pass) model comparison or (program, pass, entry point, input) differential run; "
                        "non-trivial = the Go pass changed the module (model comparisons) / both interpreter runs terminated with a result (runs)")
